@@ -53,6 +53,8 @@ class RTCMMessage:
         self._payload = payload
         if self._payload is None:
             raise RTCMMessageError("Payload must be specified")
+        if len(self._payload) < 2:
+            raise RTCMMessageError("Payload must be at least 2 bytes (message number)")
         self._payloadi = int.from_bytes(self._payload, "big")  # payload as int
         self._payblen = len(self._payload) * 8  # length of payload in bits
         self._labelmsm = labelmsm
@@ -406,7 +408,7 @@ class RTCMMessage:
 
         mid = self._payload[0] << 4 | self._payload[1] >> 4
 
-        if mid == 4076:  # proprietary IGS SSR message type
+        if mid == 4076 and len(self._payload) > 2:  # proprietary IGS SSR message type
             subtype = (self._payload[1] & 0x1) << 7 | self._payload[2] >> 1
             mid = f"{mid}_{subtype:03d}"
 
